@@ -130,3 +130,22 @@ Proof. exact box_list_not_const. Qed.
 Theorem C20_const_path_rejected : forall w cx m tag v c k, m = MArr \/ m = MBoxArr ->
   exists e, run crate_decls w cx m (InSemi (User tag v c) (ConstPath k)) = CompileError e.
 Proof. exact rep_constpath_rejected. Qed.
+
+(* ---- tie to the current source: the arms of arr!, box_arr!, box_arr_helper! (matcher shape and
+   transcriber term) and the const-ness of from_array / const_transmute / try_from_vec /
+   __from_vec_helper, regenerated by tools/ga2coq from src/arr.rs, src/lib.rs, src/impl_alloc.rs on
+   every run (coq/gen/GenMacro.v), are the declarations every theorem above runs on ---- *)
+From GA Require Import MacroTie.
+From GAGen Require GenMacro.
+
+Theorem C20_source_arms :
+  GenMacro.gen_arr_arms = arr_arms /\ GenMacro.gen_box_arr_arms = box_arr_arms /\
+  GenMacro.gen_box_arr_helper_arms = box_arr_helper_arms.
+Proof. exact (conj tie_arr_arms (conj tie_box_arr_arms tie_box_arr_helper_arms)). Qed.
+
+Theorem C20_source_fn_const : forall f b, In (f, b) GenMacro.gen_fn_const -> crate_fn_const f = b.
+Proof. exact tie_fn_const. Qed.
+
+Theorem C20_source_decls : forall m f,
+  arms_of gen_decls m = arms_of crate_decls m /\ fn_is_const gen_decls f = fn_is_const crate_decls f.
+Proof. exact (fun m f => conj (tie_decls_arms m) (tie_decls_const f)). Qed.
